@@ -1,4 +1,5 @@
 import Ecal.Model.Parser
+import Ecal.Gen.C08Print
 /-!
 Model of parser/prettyprinter.go at the CURRENT commit of /repo (with the repairs 58be508 — bracket rule
 `ppNeedsBrackets` —, 4f48871 — empty block comment —, e9f68ea — let / sink attributes are prefix operators — and 9f2e979 — `if true {…}` is not an else branch).  Text is a byte list.
@@ -55,23 +56,34 @@ def hex4 (n : Nat) : Txt := [hexDigit (n / 4096 % 16), hexDigit (n / 256 % 16), 
 def hex8 (n : Nat) : Txt :=
   [hexDigit (n / 268435456 % 16), hexDigit (n / 16777216 % 16), hexDigit (n / 1048576 % 16), hexDigit (n / 65536 % 16)] ++ hex4 n
 
-/-- unicode.IsPrint: exact on ASCII and Latin-1; beyond that "printable unless a space / control /
-    line separator" (declared limitation) -/
+/-- binary search in ascending, disjoint ranges -/
+def searchRanges (a : Array (Nat × Nat)) (r : Nat) : Nat → Nat → Nat → Bool
+  | 0, _, _ => false
+  | f+1, lo, hi =>
+    if lo ≥ hi then false
+    else
+      let mid := (lo + hi) / 2
+      let x := a.getD mid (0, 0)
+      if r < x.1 then searchRanges a r f lo mid
+      else if r > x.2 then searchRanges a r f (mid + 1) hi
+      else true
+
+/-- strconv.IsPrint: ASCII by its definition, every other rune by the table regenerated from the Go
+    toolchain (`Ecal.Gen.C08Print.printRanges`) -/
 def isPrint (r : Nat) : Bool :=
   if r < 0x80 then 0x20 ≤ r && r < 0x7F
-  else if r < 0x100 then 0xA1 ≤ r && r != 0xAD
-  else !(isSpace r) && !(0xD800 ≤ r && r ≤ 0xDFFF) && !(0xE000 ≤ r && r ≤ 0xF8FF)
-    && r != 0xFEFF && !(0x200B ≤ r && r ≤ 0x200F) && !(0x202A ≤ r && r ≤ 0x202E) && !(0x2060 ≤ r && r ≤ 0x206F)
+  else searchRanges Ecal.Gen.C08Print.printRanges r 40 0 Ecal.Gen.C08Print.printRanges.size
 
 /-- utf8.DecodeRune on the head of a non-empty byte list: (rune, width); invalid ⇒ (U+FFFD, 1) -/
 def decodeHead (l : List Nat) : Nat × Nat :=
   decodeBytes l.length (l.getD 0 0) (l.getD 1 0) (l.getD 2 0) (l.getD 3 0)
 
-/-- what strconv.Quote writes for the rune at the head of `l` (rune `r`, width `w`) -/
-def quotePiece (l : List Nat) (r w : Nat) : Txt :=
-  if w = 1 && r = runeError then [92, 120] ++ hex2 (l.getD 0 0)                  -- \xNN of an invalid byte
+/-- what strconv.Quote writes for the rune at the head of `l` (rune `r`, width `w`); `ip` = the
+    printability predicate -/
+def quotePiece (ip : Nat → Bool) (l : List Nat) (r w : Nat) : Txt :=
+  if w = 1 && r = runeError then [92, 120] ++ hex2 (l.getD 0 0)                  -- \\xNN of an invalid byte
   else if r = 34 then [92, 34] else if r = 92 then [92, 92]
-  else if isPrint r then l.take w
+  else if ip r then l.take w
   else if r = 7 then [92, 97] else if r = 8 then [92, 98] else if r = 12 then [92, 102]
   else if r = 10 then [92, 110] else if r = 13 then [92, 114] else if r = 9 then [92, 116]
   else if r = 11 then [92, 118]
@@ -80,15 +92,18 @@ def quotePiece (l : List Nat) (r w : Nat) : Txt :=
   else [92, 85] ++ hex8 r
 
 /-- the text between the quotes (fuel = an upper bound of the number of runes) -/
-def quoteBody : Nat → List Nat → Txt
+def quoteBody (ip : Nat → Bool) : Nat → List Nat → Txt
   | 0, _ => []
   | _, [] => []
   | f+1, c :: cs =>
-    quotePiece (c :: cs) (decodeHead (c :: cs)).1 (decodeHead (c :: cs)).2 ++
-      quoteBody f ((c :: cs).drop (decodeHead (c :: cs)).2)
+    quotePiece ip (c :: cs) (decodeHead (c :: cs)).1 (decodeHead (c :: cs)).2 ++
+      quoteBody ip f ((c :: cs).drop (decodeHead (c :: cs)).2)
+
+/-- strconv.Quote with a given printability predicate -/
+def quoteWith (ip : Nat → Bool) (t : Txt) : Txt := [34] ++ quoteBody ip (t.length + 1) t ++ [34]
 
 /-- strconv.Quote -/
-def quote (t : Txt) : Txt := [34] ++ quoteBody (t.length + 1) t ++ [34]
+def quote (t : Txt) : Txt := quoteWith isPrint t
 
 /-- templates: key ↦ pieces (`inl` = text, `inr k` = child k (1-based); 0 = val, 100 = qval) -/
 def tmpl (key : String) : Option (List (String ⊕ Nat)) :=
@@ -127,16 +142,31 @@ def isOperator (n : Node) : Bool :=
   (n.binding != 0 && n.led != Led.none) || (n.children.length = 1 &&
     ["not", "let", "kindmatch", "scopematch", "statematch", "priority", "suppresses"].contains n.name)
 
+/-- ppIsProductChain (fixes/C08-product-chain-brackets): the operators of the given binding on the left spine of
+    `n` — printed without brackets — are products and quotients only -/
+def isProductChainF : Nat → Node → Nat → Bool
+  | 0, _, _ => true
+  | f+1, n, binding =>
+    if n.children.length != 2 || n.led = Led.none || n.binding != binding then true
+    else (n.name = "times" || n.name = "div") &&
+      (match n.children with | some l :: _ => isProductChainF f l binding | _ => true)
+
+/-- (fuel = a bound on the depth of the tree; the driver's trees are far smaller) -/
+def isProductChain (n : Node) (binding : Nat) : Bool := isProductChainF 100000 n binding
+
 /-- ppNeedsBrackets(parent, child, childIndex): does the printed child need parentheses to be parsed
     again into the same position under its parent? (with fix e9f68ea: `let` and the sink attributes count
     as prefix operators) -/
 def needsBrackets (parent child : Node) (childIndex : Nat) : Bool :=
-  if !isOperator child || !isOperator parent then false            -- only operators under operators
+  -- the value of a return statement is everything which follows it (ndReturn) — fixes/C08-return-operand-brackets
+  if child.name = "return" && child.children.length = 1 && isOperator parent then true
+  else if !isOperator child || !isOperator parent then false       -- only operators under operators
   else if parent.children.length = 1 then                          -- operand of a prefix operator (ndPrefix)
     decide (child.binding ≤ parent.binding + 20)
   else if child.children.length = 1 then                           -- prefix operator under an infix operator
     decide (parent.binding > child.binding + 20)
-  else if parent.name = "times" && (child.name = "times" || child.name = "div") then false
+  else if parent.name = "times" && (child.name = "times" || child.name = "div") &&
+      isProductChain child parent.binding then false
   else decide (parent.binding > child.binding) || (parent.binding = child.binding && childIndex > 0)
 
 def indentNames : List String := ["statements", "map", "list", "kindmatch", "statematch", "scopematch", "priority", "suppresses"]
